@@ -1,4 +1,6 @@
 import Driver.Parse
+import RTA.Model.XCurve
+import RTA.Model.Ros
 /-! Line-protocol driver: one operation per input line, one result per output line. -/
 
 namespace RTA.Driver
@@ -6,6 +8,30 @@ namespace RTA.Driver
 def optStr : Option Nat → String
   | some n => toString n
   | none => "hang"
+
+def pairsToStr (l : List (Nat × Nat)) : String :=
+  "[" ++ ",".intercalate (l.map fun (a, b) => s!"{a}:{b}") ++ "]"
+
+def withArr (a : Option Arr) (f : Arr → String) : String :=
+  match a with
+  | some a => if a.WF then f a else "panic"
+  | none => "panic"
+
+def withCost (c : Option Cost) (g : Cost → Bool) (f : Cost → String) : String :=
+  match c with
+  | some c => if g c then f c else "panic"
+  | none => "panic"
+
+def withRB (r : Option RB) (g : RB → Bool) (f : RB → String) : String :=
+  match r with
+  | some r => if r.arrWF && g r then f r else "panic"
+  | none => "panic"
+
+def pXOp : Parser XOp
+  | "na" :: ts => do let (d, ts) ← pNat ts; pure (.na d, ts)
+  | "it" :: ts => some (.newIter, ts)
+  | "nx" :: ts => do let (i, ts) ← pNat ts; pure (.next i, ts)
+  | _ => none
 
 def evalOp : List String → Option String
   | "sbf" :: ts => do
@@ -39,16 +65,276 @@ def evalOp : List String → Option String
     let (lim, ts) ← pNat ts
     let (tab, _) ← pTab ts
     pure (if s.WF then (search s lim (tabEval tab)).toStr else "panic")
+  | "na" :: ts => do
+    let (a, ts) ← pArr ts
+    let (d, _) ← pNat ts
+    pure (withArr a fun a => toString (a.N d))
+  | "nas" :: ts => do
+    let (a, ts) ← pArr ts
+    let (lo, ts) ← pNat ts
+    let (hi, _) ← pNat ts
+    pure (withArr a fun a => listToStr ((List.range (hi + 1 - lo)).map fun i => a.N (lo + i)))
+  | "steps" :: ts => do
+    let (a, ts) ← pArr ts
+    let (h, _) ← pNat ts
+    pure (withArr a fun a => listToStr (a.stepsUpTo h))
+  | "bsteps" :: ts => do
+    let (a, ts) ← pArr ts
+    let (h, _) ← pNat ts
+    pure (withArr a fun a => listToStr (a.bruteSteps h))
+  | "dmin" :: ts => do
+    let (c, _) ← pCurve ts
+    pure (match c with | some d => listToStr d | none => "panic")
+  | "mind" :: ts => do
+    let (n, ts) ← pNat ts
+    let (c, _) ← pCurve ts
+    pure (match c with | some d => toString (minDistance d n) | none => "panic")
+  | "pfx" :: ts => do
+    let (pv, _) ← pPrefix ts
+    pure (match pv with
+      | some (h, st) => s!"h={h} [" ++ ",".intercalate (st.map fun (d, n) => s!"{d}:{n}") ++ "]"
+      | none => "panic")
+  | "dmi" :: ts => do
+    let (k, ts) ← pNat ts
+    let (a, _) ← pArr ts
+    pure (withArr a fun a => pairsToStr (a.dminIterTake k))
+  | "coj" :: ts => do
+    let (c, ts) ← pCost ts
+    let (n, _) ← pNat ts
+    pure (withCost c (fun _ => true) fun c => toString (c.ofJobs n))
+  | "cojs" :: ts => do
+    let (c, ts) ← pCost ts
+    let (lo, ts) ← pNat ts
+    let (hi, _) ← pNat ts
+    pure (withCost c (fun _ => true) fun c => listToStr ((List.range (hi + 1 - lo)).map fun i => c.ofJobs (lo + i)))
+  | "items" :: ts => do
+    let (c, ts) ← pCost ts
+    let (n, _) ← pNat ts
+    pure (withCost c (·.itemsGuard n) fun c => listToStr (c.items n))
+  | "least" :: ts => do
+    let (c, ts) ← pCost ts
+    let (n, _) ← pNat ts
+    pure (withCost c (·.leastGuard n) fun c => toString (c.least n))
+  | "ccvec" :: ts => do
+    let (c, _) ← pCostCurve ts
+    pure (match c with | some w => listToStr w | none => "panic")
+  | "need" :: ts => do
+    let (r, ts) ← pRB ts
+    let (d, _) ← pNat ts
+    pure (withRB r (fun _ => true) fun r => toString (r.need d))
+  | "needs" :: ts => do
+    let (r, ts) ← pRB ts
+    let (lo, ts) ← pNat ts
+    let (hi, _) ← pNat ts
+    pure (withRB r (fun _ => true) fun r => listToStr ((List.range (hi + 1 - lo)).map fun i => r.need (lo + i)))
+  | "lw" :: ts => do
+    let (r, ts) ← pRB ts
+    let (d, _) ← pNat ts
+    pure (withRB r (·.leastGuard d) fun r => toString (r.leastWcet d))
+  | "rsteps" :: ts => do
+    let (r, ts) ← pRB ts
+    let (h, _) ← pNat ts
+    pure (withRB r (fun _ => true) fun r => listToStr (r.stepsUpTo h))
+  | "jc" :: ts => do
+    let (r, ts) ← pRB ts
+    let (d, _) ← pNat ts
+    pure (withRB r (·.itemsGuard d) fun r => listToStr (sortDesc (r.jobCosts d)))
+  | "nbn" :: ts => do
+    let (r, ts) ← pRB ts
+    let (d, ts) ← pNat ts
+    let (n, _) ← pNat ts
+    pure (withRB r (·.itemsGuard d) fun r => toString (r.needByN d n))
+  | "nbnc" :: ts => do
+    let (r, ts) ← pRB ts
+    let (d, ts) ← pNat ts
+    let (n, _) ← pNat ts
+    pure (withRB r (·.itemsGuard d) fun r => toString (r.needByNPerComponent d n))
+  | "soff" :: ts => do
+    let (r, ts) ← pRB ts
+    let (l, _) ← pNat ts
+    pure (withRB r (fun _ => true) fun r => match stepOffsetsBelow (r.stepsUpTo l) l with
+      | some v => listToStr v
+      | none => "panic")
+  | "xops" :: ts => do
+    let (d, ts) ← pList pNat ts
+    let (m, ts) ← pNat ts
+    let (ops, _) ← pRep pXOp m ts
+    if ¬ curveWF d then pure "panic" else
+    let outs := (XState.init d).run ops
+    pure ("[" ++ ",".intercalate (outs.map fun o => match o with | some v => toString v | none => "-") ++ "]")
   | "maxrt" :: ts => do
     let (rs, _) ← pList pRes ts
     pure (maxResponseTime rs).toStr
+  | _ => none
+
+
+def pRBList : Parser (Option (List RB)) := fun ts => do
+  let (n, ts) ← pNat ts
+  let (rs, ts) ← pRep pRB n ts
+  pure (rs.mapM id, ts)
+
+def rbOk (r : RB) : Bool := r.arrWF
+def rbsOk (rs : List RB) : Bool := rs.all rbOk
+
+/-- evaluate only when every request bound is well-formed enough for `service_needed`
+and `steps_iter` not to fail; analyses add their own guards -/
+def guardRBs (rs : List RB) (f : Unit → Res) : String :=
+  if rbsOk rs then (f ()).toStr else "panic"
+
+def pKind : Parser CbKind
+  | "T" :: ts => some (.timer, ts)
+  | "E" :: ts => some (.eventSource, ts)
+  | "U" :: ts => some (.polledUnknown, ts)
+  | "P" :: ts => do let (p, ts) ← pNat ts; pure (.polled p, ts)
+  | _ => none
+
+def pCallback : Parser (Option Callback) := fun ts => do
+  let (rtb, ts) ← pNat ts
+  let (a, ts) ← pArr ts
+  let (c, ts) ← pCost ts
+  let (k, ts) ← pKind ts
+  pure (do let a ← a; let c ← c; pure { rtb := rtb, arr := a, cost := c, kind := k }, ts)
+
+def pWorkload : Parser (Option (List Callback) × List Nat) := fun ts => do
+  let (n, ts) ← pNat ts
+  let (cbs, ts) ← pRep pCallback n ts
+  let (sub, ts) ← pList pNat ts
+  pure ((cbs.mapM id, sub), ts)
+
+def wlOk (wl : List Callback) : Bool := wl.all fun cb => decide cb.arr.WF
+
+def evalAnalysis : List String → Option String
+  | "fifo" :: ts => do
+    let (r, ts) ← pRB ts
+    let (lim, _) ← pNat ts
+    pure (match r with | some r => guardRBs [r] fun _ => fifoRta r lim | none => "panic")
+  | "fp_p" :: ts => do
+    let (tua, ts) ← pRB ts
+    let (others, ts) ← pRBList ts
+    let (lim, _) ← pNat ts
+    pure (match tua, others with
+      | some tua, some others => guardRBs (tua :: others) fun _ => fpPreemptive tua others lim
+      | _, _ => "panic")
+  | "fp_np" :: ts => do
+    let (a, ts) ← pArr ts
+    let (c, ts) ← pNat ts
+    let (b, ts) ← pNat ts
+    let (others, ts) ← pRBList ts
+    let (lim, _) ← pNat ts
+    pure (match a, others with
+      | some a, some others => guardRBs (.rbf a (.scalar c) :: others) fun _ => fpNonpreemptive a c b others lim
+      | _, _ => "panic")
+  | "fp_lp" :: ts => do
+    let (a, ts) ← pArr ts
+    let (c, ts) ← pNat ts
+    let (last, ts) ← pNat ts
+    let (b, ts) ← pNat ts
+    let (others, ts) ← pRBList ts
+    let (lim, _) ← pNat ts
+    pure (match a, others with
+      | some a, some others => guardRBs (.rbf a (.scalar c) :: others) fun _ => fpLimited a c last b others lim
+      | _, _ => "panic")
+  | "fp_fl" :: ts => do
+    let (tua, ts) ← pRB ts
+    let (b, ts) ← pNat ts
+    let (others, ts) ← pRBList ts
+    let (lim, _) ← pNat ts
+    pure (match tua, others with
+      | some tua, some others => guardRBs (tua :: others) fun _ => fpFloating tua b others lim
+      | _, _ => "panic")
+  | "edf_p" :: ts => do
+    let (tua, ts) ← pRB ts
+    let (d, ts) ← pNat ts
+    let (os, ts) ← pList (pPair pRB pNat) ts
+    let (lim, _) ← pNat ts
+    pure (match tua, (os.mapM fun (r, dd) => r.map fun r => ({ rb := r, D := dd, seg := 0 } : EdfTask)) with
+      | some tua, some others => guardRBs (tua :: others.map (·.rb)) fun _ => edfPreemptive tua d others lim
+      | _, _ => "panic")
+  | "edf_np" :: ts => do
+    let (a, ts) ← pArr ts
+    let (c, ts) ← pNat ts
+    let (d, ts) ← pNat ts
+    let (os, ts) ← pList (pPair pArr (pPair pNat pNat)) ts
+    let (lim, _) ← pNat ts
+    pure (match a, (os.mapM fun (ao, (co, dd)) => ao.map fun ao => ({ rb := .rbf ao (.scalar co), D := dd, seg := co } : EdfTask)) with
+      | some a, some others => guardRBs (.rbf a (.scalar c) :: others.map (·.rb)) fun _ => edfNonpreemptive a c d others lim
+      | _, _ => "panic")
+  | "edf_lp" :: ts => do
+    let (a, ts) ← pArr ts
+    let (c, ts) ← pNat ts
+    let (d, ts) ← pNat ts
+    let (last, ts) ← pNat ts
+    let (os, ts) ← pList (pPair pRB (pPair pNat pNat)) ts
+    let (lim, _) ← pNat ts
+    pure (match a, (os.mapM fun (r, (dd, seg)) => r.map fun r => ({ rb := r, D := dd, seg := seg } : EdfTask)) with
+      | some a, some others => guardRBs (.rbf a (.scalar c) :: others.map (·.rb)) fun _ => edfLimited a c d last others lim
+      | _, _ => "panic")
+  | "edf_fl" :: ts => do
+    let (tua, ts) ← pRB ts
+    let (d, ts) ← pNat ts
+    let (os, ts) ← pList (pPair pRB (pPair pNat pNat)) ts
+    let (lim, _) ← pNat ts
+    pure (match tua, (os.mapM fun (r, (dd, seg)) => r.map fun r => ({ rb := r, D := dd, seg := seg } : EdfTask)) with
+      | some tua, some others => guardRBs (tua :: others.map (·.rb)) fun _ => edfFloating tua d others lim
+      | _, _ => "panic")
+  | "ros_es" :: ts => do
+    let (s, ts) ← pSupply ts
+    let (r, ts) ← pRB ts
+    let (lim, _) ← pNat ts
+    pure (match r with
+      | some r => if s.WF then guardRBs [r] fun _ => rosEventSource s r lim else "panic"
+      | none => "panic")
+  | "ros_tm" :: ts => do
+    let (s, ts) ← pSupply ts
+    let (own, ts) ← pRB ts
+    let (interf, ts) ← pRB ts
+    let (b, ts) ← pNat ts
+    let (lim, _) ← pNat ts
+    pure (match own, interf with
+      | some own, some interf => if s.WF then guardRBs [own, interf] fun _ => rosTimer s own interf b lim else "panic"
+      | _, _ => "panic")
+  | "ros_pp" :: ts => do
+    let (s, ts) ← pSupply ts
+    let (own, ts) ← pRB ts
+    let (interf, ts) ← pRB ts
+    let (lim, _) ← pNat ts
+    pure (match own, interf with
+      | some own, some interf => if s.WF then guardRBs [own, interf] fun _ => rosPollingPoint s own interf lim else "panic"
+      | _, _ => "panic")
+  | "ros_ch" :: ts => do
+    let (s, ts) ← pSupply ts
+    let (last, ts) ← pRB ts
+    let (pfx, ts) ← pRB ts
+    let (full, ts) ← pRB ts
+    let (others, ts) ← pRB ts
+    let (lim, _) ← pNat ts
+    pure (match last, pfx, full, others with
+      | some last, some pfx, some full, some others =>
+        if s.WF then guardRBs [last, pfx, full, others] fun _ => rosChain s last pfx full others lim else "panic"
+      | _, _, _, _ => "panic")
+  | "rr" :: ts => do
+    let (s, ts) ← pSupply ts
+    let ((wl, sub), ts) ← pWorkload ts
+    let (lim, _) ← pNat ts
+    pure (match wl with
+      | some wl => if s.WF && wlOk wl then (rrSubchain s wl sub lim).toStr else "panic"
+      | none => "panic")
+  | "bw" :: ts => do
+    let (s, ts) ← pSupply ts
+    let ((wl, sub), ts) ← pWorkload ts
+    let (lim, _) ← pNat ts
+    pure (match wl with
+      | some wl => if s.WF && wlOk wl then (bwSubchain s wl sub lim).toStr else "panic"
+      | none => "panic")
   | _ => none
 
 def evalLine (line : String) : String :=
   let toks := (line.trimAscii.toString.splitOn " ").filter (· ≠ "")
   match evalOp toks with
   | some r => r
-  | none => "bad-op"
+  | none => match evalAnalysis toks with
+    | some r => r
+    | none => "bad-op"
 
 partial def loop (h : IO.FS.Stream) (out : IO.FS.Stream) : IO Unit := do
   let line ← h.getLine
